@@ -230,7 +230,7 @@ func (p *Pollard) calculatePosition(node *polNode) uint64 {
 		if (p.NumLeaves>>h)&1 == 1 {
 			// If we found the root, save the row to rootRow
 			// and return.
-			if p.Roots[rootIdx].data == polNode.data {
+			if p.Roots[rootIdx] == polNode {
 				rootRow = h
 				break
 			}
